@@ -3,6 +3,7 @@ package main
 import (
 	"fmt"
 	"go/ast"
+	"go/token"
 	"sort"
 	"strings"
 )
@@ -27,6 +28,76 @@ func batchAtomicStrList(xs []string) string {
 	return "[" + strings.Join(q, ", ") + "]"
 }
 
+// batchAtomicNorm prints a one-statement forwarding body independent of the names of receiver and parameters:
+// `$` for the receiver, `#i` for the i-th parameter (e.g. `$.batch.Put(#0,#1)`, `return $.store.BatchCommit()`); a body of
+// any other shape is printed verbatim with the prefix `OTHER:` (and then no longer equals the pinned form).
+func batchAtomicNorm(fset *token.FileSet, fd *ast.FuncDecl) string {
+	verbatim := func() string {
+		var st []string
+		for _, x := range fd.Body.List {
+			st = append(st, strings.Join(strings.Fields(exprString(fset, x)), " "))
+		}
+		return "OTHER: " + strings.Join(st, " ; ")
+	}
+	if len(fd.Body.List) != 1 {
+		return verbatim()
+	}
+	var call *ast.CallExpr
+	prefix := ""
+	switch x := fd.Body.List[0].(type) {
+	case *ast.ExprStmt:
+		call, _ = x.X.(*ast.CallExpr)
+	case *ast.ReturnStmt:
+		if len(x.Results) == 1 {
+			call, _ = x.Results[0].(*ast.CallExpr)
+			prefix = "return "
+		}
+	}
+	if call == nil {
+		return verbatim()
+	}
+	names := map[string]string{}
+	if fd.Recv != nil && len(fd.Recv.List) == 1 && len(fd.Recv.List[0].Names) == 1 {
+		names[fd.Recv.List[0].Names[0].Name] = "$"
+	}
+	i := 0
+	if fd.Type.Params != nil {
+		for _, f := range fd.Type.Params.List {
+			for _, nm := range f.Names {
+				names[nm.Name] = fmt.Sprintf("#%d", i)
+				i++
+			}
+		}
+	}
+	var pr func(e ast.Expr) (string, bool)
+	pr = func(e ast.Expr) (string, bool) {
+		switch x := e.(type) {
+		case *ast.Ident:
+			if n, ok := names[x.Name]; ok {
+				return n, true
+			}
+			return "", false
+		case *ast.SelectorExpr:
+			b, ok := pr(x.X)
+			return b + "." + x.Sel.Name, ok
+		}
+		return "", false
+	}
+	fun, ok := pr(call.Fun)
+	if !ok {
+		return verbatim()
+	}
+	var args []string
+	for _, a := range call.Args {
+		s, ok := pr(a)
+		if !ok {
+			return verbatim()
+		}
+		args = append(args, s)
+	}
+	return prefix + fun + "(" + strings.Join(args, ",") + ")"
+}
+
 func genBatchAtomic(repo string) (string, error) {
 	fset, f, err := parseFile(repo, levelFile)
 	if err != nil {
@@ -35,6 +106,7 @@ func genBatchAtomic(repo string) (string, error) {
 	type site struct{ fn, call string }
 	var dbSites, batchSites []site
 	bodies := map[string][]string{}
+	decls := map[string]*ast.FuncDecl{}
 	nfuncs := 0
 	for _, d := range f.Decls {
 		fd, ok := d.(*ast.FuncDecl)
@@ -48,6 +120,7 @@ func genBatchAtomic(repo string) (string, error) {
 			stmts = append(stmts, strings.Join(strings.Fields(exprString(fset, st)), " "))
 		}
 		bodies[name] = stmts
+		decls[name] = fd
 		ast.Inspect(fd.Body, func(n ast.Node) bool {
 			ce, ok := n.(*ast.CallExpr)
 			if !ok {
@@ -102,26 +175,25 @@ func genBatchAtomic(repo string) (string, error) {
 	if err != nil {
 		return "", err
 	}
-	wrap := map[string][]string{}
+	wrap := map[string]string{}
 	for _, name := range []string{"BatchPutRawKeyVal", "BatchDeleteRawKey", "CommitTo", "NewBatch"} {
 		fd := findFunc(f2, name)
 		if fd == nil || fd.Body == nil {
 			return "", fmt.Errorf("%s: func %s not found", stateFile, name)
 		}
-		for _, st := range fd.Body.List {
-			wrap[name] = append(wrap[name], strings.Join(strings.Fields(exprString(fset2, st)), " "))
-		}
+		wrap[name] = batchAtomicNorm(fset2, fd)
 	}
 	var sb strings.Builder
 	sb.WriteString("/-! Batch atomicity facts (property C01), extracted from `" + levelFile + "` and `" + stateFile + "`. -/\n")
 	sb.WriteString("namespace OntVerif.Gen.BatchAtomic\n\n")
 	fmt.Fprintf(&sb, "/-- every call that modifies the database (`db.Write/Put/Delete/…`): (enclosing function, method), sorted -/\ndef dbWriteSites : List (String × String) := %s\n\n", pairs(dbSites))
 	fmt.Fprintf(&sb, "/-- every call on the pending batch (`self.batch.…`): (enclosing function, method), sorted -/\ndef batchSites : List (String × String) := %s\n\n", pairs(batchSites))
-	for _, name := range []string{"NewBatch", "BatchPut", "BatchDelete", "BatchCommit"} {
-		fmt.Fprintf(&sb, "/-- %s:%s — statements of the body -/\ndef body_%s : List String := %s\n\n", levelFile, name, name, batchAtomicStrList(bodies[name]))
+	fmt.Fprintf(&sb, "/-- %s:NewBatch — statements of the body -/\ndef body_NewBatch : List String := %s\n\n", levelFile, batchAtomicStrList(bodies["NewBatch"]))
+	for _, name := range []string{"BatchPut", "BatchDelete"} {
+		fmt.Fprintf(&sb, "/-- %s:%s — the body, `$` = receiver, `#i` = i-th parameter (`OTHER:` = not a single forwarding call) -/\ndef body_%s : String := %s\n\n", levelFile, name, name, batchAtomicStr(batchAtomicNorm(fset, decls[name])))
 	}
 	for _, name := range []string{"NewBatch", "BatchPutRawKeyVal", "BatchDeleteRawKey", "CommitTo"} {
-		fmt.Fprintf(&sb, "/-- %s:StateStore.%s — statements of the body -/\ndef state_%s : List String := %s\n\n", stateFile, name, name, batchAtomicStrList(wrap[name]))
+		fmt.Fprintf(&sb, "/-- %s:StateStore.%s — the body, normalised as above -/\ndef state_%s : String := %s\n\n", stateFile, name, name, batchAtomicStr(wrap[name]))
 	}
 	sb.WriteString("end OntVerif.Gen.BatchAtomic\n")
 	return sb.String(), nil
